@@ -202,7 +202,9 @@ class ImageWriter:
             filters = image.stream.get_filters()
             for filter_name, params in filters:
                 if filter_name in LITERALS_JBIG2_DECODE:
-                    global_streams.append(params["JBIG2Globals"].resolve())
+                    # JBIG2Globals is optional (PDF 32000-1, table 12)
+                    if params and "JBIG2Globals" in params:
+                        global_streams.append(params["JBIG2Globals"].resolve())
 
             if len(global_streams) > 1:
                 msg = (
